@@ -16,26 +16,26 @@
 (* between any two of them - these are exactly the windows in which the    *)
 (* chain can change under the rescan.                                      *)
 (*                                                                         *)
-(*   pc        code                                  ChainSource call      *)
+(*   pc        code (rescan.go at the repaired tree)  ChainSource call      *)
 (*   idle      before Rescan.Start                                         *)
-(*   w1best    waitForBlocks #1, rescan.go:784       BestBlock             *)
-(*   w1sub     waitForBlocks #1, :798                Subscribe(best)       *)
-(*   w1sel     waitForBlocks #1, :808                (select)              *)
-(*   w2best, w2cur0 (:461 after :791), w2sub, w2sel, w2cur1 (:461 after    *)
-(*             :830): the same for waitForBlocks #2 (IsCurrent predicate)  *)
+(*   w1best    waitForBlocks #1, :799                BestBlock             *)
+(*   w1sub     waitForBlocks #1, :813                Subscribe(best)       *)
+(*   w1sel     waitForBlocks #1, :823                (select)              *)
+(*   w2best, w2cur0 (:461 after :806), w2sub, w2sel, w2cur1 (:461 after    *)
+(*             :845): the same for waitForBlocks #2 (IsCurrent predicate)  *)
 (*   best      catch-up, :711 (after the drain :694) BestBlock             *)
 (*   sub       catch-up, :729                        Subscribe(cur height) *)
 (*   hdr       catch-up, :751                        GetBlockHeaderByHeight*)
-(*   prev      catch-up, repaired code only          GetBlockHeader(parent)*)
-(*   cf        :1178 (ctx c) / :961 (ctx n, r)       GetCFilter            *)
-(*   blk       :994                                  GetBlock              *)
-(*   fhh       :917                                  GetFilterHeaderByHeight*)
-(*   rew       updateFilter :1259                    GetBlockHeader(parent)*)
+(*   prev      catch-up, :764 -> :874 (repaired)     GetBlockHeader(parent)*)
+(*   cf        :1229 (ctx c) / :1012 (ctx n, r)      GetCFilter            *)
+(*   blk       :1045                                 GetBlock              *)
+(*   fhh       :968                                  GetFilterHeaderByHeight*)
+(*   rew       updateFilter :1310                    GetBlockHeader(parent)*)
 (*   sel       current mode, :541                    (select)              *)
 (*   done      the goroutine returned                                      *)
 (* ctx: c = catching up, n = block from a notification (:591), r = block   *)
 (* from the retry queue (:648); for rew: c = drain :697, u = select :549,  *)
-(* w1 / w2 = waitForBlocks :841.                                           *)
+(* w1 / w2 = waitForBlocks :855.                                           *)
 (*                                                                         *)
 (* Chain source: `chain` is the block-header chain (ids, genesis first),   *)
 (* `fh` the height of the filter-header tip (BestBlock = the block at fh). *)
@@ -95,11 +95,11 @@ SetR(r) ==
   /\ nq' = r.nq /\ subOn' = r.subOn
 
 E(k, s, b, txs) == [k |-> k, s |-> s, b |-> b, h |-> HeightOf(b), txs |-> txs]
-\* notifyBlock :882 / handleBlockConnected :940 / notifyBlockWithFilter :1132
+\* notifyBlock :934 / handleBlockConnected :992 / notifyBlockWithFilter :1184
 EmitConn(r, b, txs) == [r EXCEPT !.ev = @ \o <<E(1, 1, b, txs), E(1, 2, b, <<>>)>>]
-\* handleBlockDisconnected :1082 (filtered first)
+\* handleBlockDisconnected :1134, disconnectStaleBlock :886 (filtered first)
 EmitDiscN(r, b) == [r EXCEPT !.ev = @ \o <<E(2, 1, b, <<>>), E(2, 2, b, <<>>)>>]
-\* updateFilter :1237 (legacy first)
+\* updateFilter :1288 (legacy first)
 EmitDiscU(r, b) == [r EXCEPT !.ev = @ \o <<E(2, 2, b, <<>>), E(2, 1, b, <<>>)>>]
 
 Gate(r, p, a, c) == [r EXCEPT !.pc = p, !.arg = a, !.ctx = c]
@@ -121,7 +121,7 @@ Match(r, b) ==
             /\ OutScript(TxSpends[txs[i]]) \in ws)
 
 ----------------------------------------------------------------------------
-\* updateFilter :1201.  Returns [r, rew]: rew = the goroutine is now parked in
+\* updateFilter :1252.  Returns [r, rew]: rew = the goroutine is now parked in
 \* GetBlockHeader of the rewind loop.
 RewindStep(r, c) == Gate(EmitDiscU(r, r.cur), "rew", ParentOf(r.cur), c)
 
@@ -152,7 +152,7 @@ EnterSel(r) ==
   THEN LET x == ApplyUpd(r, "u") IN IF x.rew THEN x.r ELSE Gate(x.r, "sel", -1, "")
   ELSE Gate(r, "sel", -1, "")
 
-\* The select of waitForBlocks (:808); updates are applied at :840.
+\* The select of waitForBlocks (:823); updates are applied at :855.
 EnterWSel(r, k) ==
   LET p == IF k = 1 THEN "w1sel" ELSE "w2sel"
       c == IF k = 1 THEN "w1" ELSE "w2"
@@ -160,7 +160,7 @@ EnterWSel(r, k) ==
       THEN LET x == ApplyUpd(r, c) IN IF x.rew THEN x.r ELSE Gate(x.r, p, -1, "")
       ELSE Gate(r, p, -1, "")
 
-\* GetBlockHeader(&curHeader.PrevBlock) of the rewind loop returned (:1259).
+\* GetBlockHeader(&curHeader.PrevBlock) of the rewind loop returned (:1310).
 AfterRew(r, ok) ==
   IF ~ok THEN Done(r, 2)
   ELSE LET r1 == [r EXCEPT !.cur = r.arg]
@@ -173,7 +173,7 @@ AfterRew(r, ok) ==
 \* After waitForBlocks (:489)
 StartMain(r) == ToCatchupTop([r EXCEPT !.scanning = Late(r.cur)])
 
-\* handleBlockConnected :899 up to its first chain-source call
+\* handleBlockConnected :950 up to its first chain-source call
 HBC(r, b, c) ==
   IF ParentOf(b) # r.cur THEN GoCatchup(r)
   ELSE Gate([r EXCEPT !.pb = b], "fhh", HeightOf(r.cur) + 1, c)
@@ -206,7 +206,7 @@ AfterCf(r, ok) ==
            ELSE IF Match(r, b) THEN Gate(r, "blk", b, c)
            ELSE Success([EmitConn(r, b, <<>>) EXCEPT !.cur = b], c)
 
-\* extractBlockMatches :988
+\* extractBlockMatches :1039
 AfterBlk(r, ok) ==
   LET b == r.arg
       c == r.ctx
@@ -216,7 +216,7 @@ AfterBlk(r, ok) ==
            IN  IF c = "c" THEN ToCatchupTop(r1)
                ELSE Success([r1 EXCEPT !.cur = b], c)
 
-\* catch-up: header of the next height fetched (:758), notifyBlock (:854)
+\* catch-up: header of the next height fetched (:774), notifyBlock (:905)
 NotifyCatchup(r, b) ==
   LET r1 == [r EXCEPT !.cur = b, !.scanning = @ \/ Late(b)]
   IN  IF ~WatchEmpty(r1) /\ r1.scanning THEN Gate(r1, "cf", b, "c")
